@@ -214,6 +214,13 @@ func H_C08_Mdns() {
 	if zzvrt.Bool("elements.nonnil") {
 		elements = parseTxt(txt)
 	}
+	if zzvrt.Bool("elements.valid") {
+		// a complete, valid SHIP record (out of reach of three short TXT items): for a stored service, for one the manager
+		// has never seen (also as a removal: a goodbye for an unknown service), and for the local SKI
+		ski := []string{"k", "never-seen", c17Local}[zzvrt.Choice("valid.ski", 3)]
+		reg := []string{"true", "false", "maybe"}[zzvrt.Choice("valid.register", 3)]
+		elements = map[string]string{"txtvers": "1", "id": "i", "path": "/ship/", "ski": ski, "register": reg}
+	}
 	var addrs []net.IP
 	na := zzvrt.Choice("addrs", 3)
 	for i := 0; i < na; i++ {
